@@ -97,7 +97,7 @@ def nearest(labels, v, tol):
             best, where = d, [p]
         elif d == best:
             where.append(p)
-    if best is None or best > tol:
+    if best is None or not (best <= tol):     # a NaN query is within no tolerance of any label
         return []
     return where
 
